@@ -37,6 +37,8 @@ func fionread(fd uintptr) (int, error) {
 }
 
 type ppProc struct {
+	exited chan struct{}
+	code   int
 	cmd    *exec.Cmd
 	inW    *os.File
 	outR   *os.File
@@ -68,6 +70,16 @@ func startPP(bin string, args ...string) (*ppProc, error) {
 	}
 	inR.Close()
 	outW.Close()
+	p.exited = make(chan struct{})
+	go func() {
+		err := p.cmd.Wait()
+		if ee, ok := err.(*exec.ExitError); ok {
+			p.code = ee.ExitCode()
+		} else if err != nil {
+			p.code = -1
+		}
+		close(p.exited)
+	}()
 	return p, nil
 }
 
@@ -96,6 +108,12 @@ func (p *ppProc) waitBlocked(watchdog time.Duration) error {
 	deadline := time.Now().Add(watchdog)
 	pid := p.cmd.Process.Pid
 	for {
+		select {
+		case <-p.exited:
+			p.drainAll()
+			return fmt.Errorf("child gone: exited with status %d", p.code)
+		default:
+		}
 		if n, err := fionread(p.inW.Fd()); err == nil && n == 0 {
 			// (b) some thread in read(0, …)
 			ents, err := os.ReadDir(fmt.Sprintf("/proc/%d/task", pid))
@@ -122,30 +140,27 @@ func (p *ppProc) waitBlocked(watchdog time.Duration) error {
 	}
 }
 
+// drainAll reads stdout to its end (the child has exited or is exiting).
+func (p *ppProc) drainAll() {
+	var buf [65536]byte
+	for {
+		n, err := p.outR.Read(buf[:])
+		p.out = append(p.out, buf[:n]...)
+		if err != nil {
+			return
+		}
+	}
+}
+
 func (p *ppProc) finish() (int, error) {
 	p.inW.Close()
-	done := make(chan error, 1)
-	go func() {
-		var buf [65536]byte
-		for {
-			n, err := p.outR.Read(buf[:])
-			p.out = append(p.out, buf[:n]...)
-			if err != nil {
-				break
-			}
-		}
-		done <- p.cmd.Wait()
-	}()
+	done := make(chan struct{})
+	go func() { p.drainAll(); close(done) }()
 	select {
-	case err := <-done:
+	case <-p.exited:
+		<-done
 		p.outR.Close()
-		if err != nil {
-			if ee, ok := err.(*exec.ExitError); ok {
-				return ee.ExitCode(), nil
-			}
-			return -1, err
-		}
-		return 0, nil
+		return p.code, nil
 	case <-time.After(60 * time.Second):
 		p.cmd.Process.Kill()
 		return -1, fmt.Errorf("watchdog: child did not exit within 60s after stdin was closed")
@@ -201,10 +216,14 @@ func CheckPPDrive(prop string, c *Case, cov *Cov) []*Violation {
 		panic(ppInfra{err})
 	}
 	defer func() {
-		if p.cmd.ProcessState == nil {
+		select {
+		case <-p.exited:
+		default:
 			p.cmd.Process.Kill()
-			p.cmd.Wait()
+			<-p.exited
 		}
+		p.inW.Close()
+		p.outR.Close()
 	}()
 	sched := c.Sched.FitTo(len(b))
 	off := 0
@@ -214,13 +233,17 @@ func CheckPPDrive(prop string, c *Case, cov *Cov) []*Violation {
 			continue
 		}
 		if _, err := p.inW.Write(b[off : off+st.N]); err != nil {
-			add("pp-exit", "", fmt.Sprintf("pp closed its stdin after %d bytes: %v; stderr: %s", off, err, clipS(p.stderr.String(), 300)))
+			if !(hasLook && p.code != 0) {
+				add("pp-exit", "", fmt.Sprintf("pp closed its stdin after %d of %d bytes: %v; stderr: %s", off, len(b), err, clipS(p.stderr.String(), 300)))
+			}
 			return vs
 		}
 		off += st.N
 		if err := p.waitBlocked(60 * time.Second); err != nil {
 			if strings.HasPrefix(err.Error(), "child gone") {
-				add("pp-exit", "", fmt.Sprintf("pp exited while its stdin was still open, after %d bytes; stderr: %s", off, clipS(p.stderr.String(), 300)))
+				if !(hasLook && p.code != 0) {
+					add("pp-exit", "", fmt.Sprintf("pp exited (status %d) while its stdin was still open, after %d of %d bytes, with %d bytes of output; stderr: %s", p.code, off, len(b), len(p.out), clipS(p.stderr.String(), 300)))
+				}
 				return vs
 			}
 			panic(ppInfra{err})
